@@ -904,3 +904,103 @@ func countedLoops(f *fn, loops *types.Var) map[types.Object]*ast.ForStmt {
 	})
 	return out
 }
+
+func init() {
+	register(&core.Rule{ID: "C15.7", Prop: "C15", MinSites: 2,
+		Desc: "the policy is asked with the peer's address: every call of a load balancer's next() in package gnet passes nil (the client, which has no accepted peer), the result of a RemoteAddr() method, the address converted from the sockaddr that accept returned, or the dial target taken from the context by FromNetAddrContext – never a local or listener address, under which the source-address hash would send every connection of one listener to one loop and the same remote to different loops",
+		Run:  runC15_7})
+}
+
+func runC15_7(c *core.Ctx) {
+	v := vocabOf(c)
+	if v == nil {
+		return
+	}
+	lbIface, _ := c.P.Object("", "loadBalancer").(*types.TypeName)
+	fromAddr := c.P.Func("", "FromNetAddrContext")
+	if !c.Need("loadBalancer", lbIface) || !c.Need("FromNetAddrContext", fromAddr) {
+		return
+	}
+	isNext := func(f *fn, call *ast.CallExpr) bool {
+		cf := flow.CalleeFunc(f.Info, call)
+		if cf == nil || nameOf(cf) != "next" || len(call.Args) != 1 {
+			return false
+		}
+		sig, _ := cf.Type().(*types.Signature)
+		if sig == nil || sig.Recv() == nil {
+			return false
+		}
+		rt := sig.Recv().Type()
+		if p, ok := rt.(*types.Pointer); ok {
+			rt = p.Elem()
+		}
+		if n, ok := rt.(*types.Named); ok {
+			if n.Obj() == lbIface {
+				return true
+			}
+			// a concrete balancer
+			if iface, ok := lbIface.Type().Underlying().(*types.Interface); ok && (types.Implements(n, iface) || types.Implements(types.NewPointer(n), iface)) {
+				return true
+			}
+		}
+		return false
+	}
+	for _, f := range v.funcs {
+		if f.Decl.Body == nil {
+			continue
+		}
+		k := 0
+		for _, call := range callsIn(f.Decl.Body, true) {
+			if !isNext(f, call) {
+				continue
+			}
+			k++
+			arg := seeThrough(f, call.Args[0])
+			good, why := false, ""
+			switch {
+			case flow.IsNil(f.Info, arg):
+				good, why = true, "nil (no accepted peer)"
+			default:
+				if inner, ok := arg.(*ast.CallExpr); ok {
+					if cf := flow.CalleeFunc(f.Info, inner); cf != nil {
+						switch {
+						case cf.Name() == "RemoteAddr" && len(inner.Args) == 0:
+							good, why = true, "RemoteAddr() of the connection"
+						case (cf.Name() == "SockaddrToTCPOrUnixAddr" || cf.Name() == "SockaddrToUDPAddr") && len(inner.Args) == 1:
+							// the sockaddr comes from the accept call of this function
+							if so := flow.ObjOf(f.Info, inner.Args[0]); so != nil {
+								ast.Inspect(f.Decl.Body, func(n ast.Node) bool {
+									if as, ok := n.(*ast.AssignStmt); ok && len(as.Rhs) == 1 {
+										if ac, ok := ast.Unparen(as.Rhs[0]).(*ast.CallExpr); ok {
+											if af := flow.CalleeFunc(f.Info, ac); af != nil && (af.Name() == "Accept" || af.Name() == "Accept4" || af.Name() == "sysAccept") {
+												for _, l := range as.Lhs {
+													if flow.ObjOf(f.Info, l) == so {
+														good, why = true, "converted from the sockaddr accept returned"
+													}
+												}
+											}
+										}
+									}
+									return true
+								})
+							}
+						}
+					}
+				}
+				// the dial target taken from the context
+				if o, ok := flow.ObjOf(f.Info, call.Args[0]).(*types.Var); ok && !good {
+					ast.Inspect(f.Decl.Body, func(n ast.Node) bool {
+						if as, ok := n.(*ast.AssignStmt); ok && len(as.Rhs) == 1 && len(as.Lhs) == 2 && flow.ObjOf(f.Info, as.Lhs[0]) == types.Object(o) {
+							if fc, ok := ast.Unparen(as.Rhs[0]).(*ast.CallExpr); ok && flow.IsCall(f.Info, fc, fromAddr) && assignCount(f, o) == 1 {
+								good, why = true, "the dial target from FromNetAddrContext"
+							}
+						}
+						return true
+					})
+				}
+			}
+			c.Check(good, f.Name, "argument of next() #"+itoa(k), call.Pos(), why,
+				"the load balancer is asked with `"+exprStr(call.Args[0])+"`, which is not the peer's address (RemoteAddr(), the accepted sockaddr, the dial target) : with the source-address hash the loop no longer is a function of the remote address – all connections of one local address land on one loop, and one remote can be served by different loops")
+		}
+	}
+}
